@@ -114,6 +114,13 @@ func runShplonk(e *env) {
 		}
 		shapes = append(shapes, sShape{class: "large", sizes: []int{700, 512, 333}, sets: []int{3, 1, 5}, data: 1})
 	}
+	// the transcript layout is detected on the first honest proof: it must be one whose W and W' depend on gamma
+	for _, sh := range shapes {
+		if len(sh.sizes) >= 2 {
+			e.sHonest(e.sDraw(sh))
+			break
+		}
+	}
 	for _, sh := range shapes {
 		a := e.sDraw(sh)
 		pa, okA := e.sHonest(a)
@@ -152,6 +159,15 @@ func runFflonk(e *env) {
 			shapes = append(shapes, sh)
 		}
 	}
+	// the transcript layout is detected on the first honest proof: it must be one with several folded polynomials
+	for _, sh := range shapes {
+		if len(sh.packs) >= 2 {
+			if a := e.fDraw(sh); a != nil {
+				e.fHonest(a)
+				break
+			}
+		}
+	}
 	for _, sh := range shapes {
 		a := e.fDraw(sh)
 		if a == nil {
@@ -176,7 +192,7 @@ func runFflonk(e *env) {
 }
 
 func main() {
-	c := mon.Init("C17B")
+	c := mon.Init("C17")
 	var wg sync.WaitGroup
 	for _, it := range shplonks.All {
 		it := it
